@@ -3,6 +3,7 @@ import ScrapliModel.Lemmas.LossGen
 import ScrapliModel.Lemmas.LossNc
 import ScrapliModel.Lemmas.Channel
 import ScrapliModel.Generated.Consts
+import ScrapliModel.Generated.C06ReadLoop
 /-!
 # C06 — Connection loss surfaces as an error, never as a hang or a truncated success
 
@@ -91,6 +92,44 @@ theorem loss_yields_error_fresh (k : Nat) (kind : Kind) (prog : List Phase) (pre
   have hL : LostArmed (fresh k kind) := by simp [LostArmed, fresh]
   exact ⟨loss_yields_error pre post _ s1 _ o1 hD hL hpre hlost hpost,
     fun sched s' outs => loss_never_ok sched _ s' _ outs hD⟩
+
+/-! ## every non-EOF error VALUE is a loss (tied to the source by a generated fact) -/
+
+/-- OBLIGATION on the regenerated fact: the only branches of `Channel.read`'s error block that leave
+before the hand-over are `done` closed and `errors.Is(err, io.EOF)`, both returning, and the
+hand-over is there. A "retry silently" branch for some class of error values breaks this. -/
+theorem read_loop_exceptions_exact :
+    Gen.C06ReadLoop.exceptions = [("<-c.done", "exit"), ("errors.Is(err, io.EOF)", "exit")] ∧
+    Gen.C06ReadLoop.handOverPresent = true := by
+  decide
+
+/-- the read loop's classification is `eof | other` on the error value: every value that is not
+`io.EOF` is handed over (timeout-class `net.Error`s, values whose text says "EOF", … included), every
+EOF value makes the loop return — evaluated on the extracted branch list -/
+theorem every_non_eof_value_is_handed_over (v : EVal) :
+    (v.isEOF = false → handedOver Gen.C06ReadLoop.exceptions Gen.C06ReadLoop.handOverPresent v = true) ∧
+    (v.isEOF = true → exitsOn Gen.C06ReadLoop.exceptions v = true) := by
+  rcases v with ⟨e, t, x⟩
+  cases e <;> cases t <;> cases x <;> decide
+
+/-- `loss_yields_error` for every error value: whatever the transport's persistent read error is
+(EIO, ECONNRESET, ETIMEDOUT, EAGAIN, deadline exceeded, "unexpected EOF", …) the model's loss kind is
+`kindOf v`, there is no third, silently retried class, and the operation in flight errors promptly
+and never succeeds. -/
+theorem loss_yields_error_every_value (v : EVal) (k : Nat) (prog : List Phase) (pre post : List Bool)
+    (s1 : St) (o1 : Op) (hE : Exact [] prog) (hk : k < need 0 prog)
+    (hpre : run (ticks pre) (fresh k (kindOf v)) (start prog) = (s1, .inl o1)) (hlost : s1.lost = true)
+    (hpost : maxAdjWrites prog < post.length) :
+    (v.isEOF = false → kindOf v = .err ∧
+      handedOver Gen.C06ReadLoop.exceptions Gen.C06ReadLoop.handOverPresent v = true) ∧
+    (∃ s' e, run (ticks (pre ++ post)) (fresh k (kindOf v)) (start prog) = (s', .inr (.error e))) ∧
+    ∀ sched s' outs, run sched (fresh k (kindOf v)) (start prog) ≠ (s', .inr (.ok outs)) := by
+  refine ⟨fun h => ⟨by simp [kindOf, h], (every_non_eof_value_is_handed_over v).1 h⟩, ?_⟩
+  exact loss_yields_error_fresh k (kindOf v) prog pre post s1 o1 hE hk hpre hlost hpost
+
+/-- e.g. ETIMEDOUT: a `net.Error` with `Timeout() = true` that is not EOF is handed over -/
+example : handedOver Gen.C06ReadLoop.exceptions Gen.C06ReadLoop.handOverPresent
+    { isEOF := false, netTimeout := true, eofText := false } = true := by decide
 
 /-! ## later_ops_error -/
 
